@@ -107,7 +107,11 @@ def run_case(case, ctx):
         Xd = rs.standard_normal((rows, K.shape[0]))
         UtM_a, UtU_a = Xd @ K, K.T @ K
         x0 = rs.standard_normal((rows, n))
-        dual = np.zeros((rows, n))
+        # the dual variable is an arbitrary carried-over state (constrained_parafac keeps it between outer iterations): the
+        # unconstrained answer does not depend on it
+        dual = np.zeros((rows, n)) if rs.rand() < 0.4 else rs.standard_normal((rows, n))
+        desc["dual"] = "zero" if not np.any(dual) else "non-zero"
+        ctx.count("admm_dual/" + desc["dual"])
         out = admm(UtM_a.copy(), UtU_a.copy(), x0.copy(), dual.copy(), n_const=None)
         x = np.asarray(out[0])
         want = np.linalg.lstsq(K, Xd.T, rcond=None)[0].T
@@ -141,6 +145,19 @@ def run_case(case, ctx):
         ctx.count("active_constraints_at_optimum")
     ctx.sample({"case": desc, "active_at_optimum": n_active}, 5)
     bound_eps = 0.0
+    # the normal equations belong to the caller: in a third of the cases they are handed over as shared read-only arrays (a frozen /
+    # memory-mapped Gram matrix reused along a regularisation path), and for HALS a first solve on the very same arrays is aborted
+    # by its callback before the judged solve
+    shared = bool(rs.rand() < 0.35)
+    desc["arrays"] = "shared-readonly" if shared else "private-copies"
+    if shared:
+        ctx.count("shared_readonly_arrays")
+        UtM_s, UtU_s = UtM.copy(), UtU.copy()
+        UtM_s.setflags(write=False)
+        UtU_s.setflags(write=False)
+        give = lambda a: {id(UtM): UtM_s, id(UtU): UtU_s}[id(a)]  # noqa
+    else:
+        give = lambda a: a.copy()  # noqa
     if solver == "hals":
         kw = {}
         if ls:
@@ -154,17 +171,30 @@ def run_case(case, ctx):
             # the very first sweep already changes nothing, e.g. a warm start at the solution)
             sweeps[0] += 1
             return bool(step_sq <= 1e-30 * (1.0 + float(np.sum(V * V))))
-        X = hals_nnls(UtM.copy(), UtU.copy(), V=None if x0 is None else x0.copy(), n_iter_max=4000, tol=1e-15, callback=cb, **kw)
+        if shared:
+            class _Abort(Exception):
+                pass
+
+            def cb_abort(V, step_sq):
+                raise _Abort()
+            try:
+                hals_nnls(UtM_s, UtU_s, n_iter_max=5, tol=1e-15, callback=cb_abort, **dict(kw, sparsity_coefficient=float(gen.choice(rs, [0.5, 2.0]))))
+            except _Abort:
+                ctx.count("hals_aborted_presolve")
+        X = hals_nnls(give(UtM), give(UtU), V=None if x0 is None else x0.copy(), n_iter_max=4000, tol=1e-15, callback=cb, **kw)
         ctx.count("hals_sweeps_total", sweeps[0])
     elif solver == "fista":
         eps_f = float(gen.choice(rs, [1e-8, 0.0]))
         desc["epsilon"] = eps_f
         bound_eps = eps_f
-        X = fista(UtM.copy(), UtU.copy(), x=None if x0 is None else x0.copy(), n_iter_max=4000, non_negative=True,
+        X = fista(give(UtM), give(UtU), x=None if x0 is None else x0.copy(), n_iter_max=4000, non_negative=True,
                   sparsity_coef=ls, ridge_coef=lr, tol=0.0, epsilon=eps_f)
     else:
         xv = None if x0 is None else x0[:, 0].copy()
-        X = active_set_nnls(UtM[:, 0].copy(), UtU.copy(), x=xv, n_iter_max=1000)
+        v0 = UtM[:, 0].copy()
+        if shared:
+            v0.setflags(write=False)
+        X = active_set_nnls(v0, give(UtU), x=xv, n_iter_max=1000)
         X = np.asarray(X).reshape(n, 1)
     X = np.asarray(X, dtype=float)
     icls = ("allzero-solution" if not np.any(Xref) else "generic") + "+" + ("cold" if x0 is None else "warm")
